@@ -23,6 +23,18 @@ from engine.symex import Ctx, SymBool, SymInt, Unsupported
 
 RS = z3.RealSort()
 NROWS = z3.Int("n_rows")
+COUNT_TAGS = {}  # name of a row-count symbol -> the mask tag it counts
+
+
+def rows_tag(n):
+    """tag of a fresh array with n rows (n: SymInt): full batch, or the batch compressed by a known mask"""
+    t = z3.simplify(n.t)
+    if z3.is_true(z3.simplify(t == NROWS)):
+        return None
+    nm = t.decl().name() if z3.is_const(t) else None
+    if nm in COUNT_TAGS:
+        return COUNT_TAGS[nm]
+    raise Unsupported("allocation with a row count that is neither the batch length nor the size of a known mask")
 
 
 # ----------------------------------------------------------------------------- term helpers
@@ -135,6 +147,26 @@ def vmap(f, *arrs):
 WRITES = []  # (id(base object), is_argument, description)
 
 
+class _Pair:
+    __slots__ = ("c", "x")
+
+    def __init__(self, c, x):
+        self.c, self.x = c, x
+
+
+class _Poison(list):
+    """blocks of an array that was written through a view: unusable"""
+
+    def __getitem__(self, k):
+        raise Unsupported("use of an array after it was written through a view (aliasing not modelled)")
+
+    def __iter__(self):
+        raise Unsupported("use of an array after it was written through a view (aliasing not modelled)")
+
+    def __len__(self):
+        raise Unsupported("use of an array after it was written through a view (aliasing not modelled)")
+
+
 class G:
     __array_priority__ = 10000
     __array_ufunc__ = None
@@ -161,6 +193,7 @@ class G:
             n = NROWS
         else:
             n = z3.Int("count_" + thash(self.tag))
+            COUNT_TAGS["count_" + thash(self.tag)] = self.tag
             Ctx.cur.axioms.append(z3.And(n >= 0, n <= NROWS))
         return n * len(self.blocks) if len(self.blocks) > 1 else n
 
@@ -432,7 +465,10 @@ def same_rows(t1, t2):
     if z3.eq(a, b):
         return True
     c = Ctx.cur
-    return c.check(a != b) == z3.unsat  # for the generic row, hence for every row (see module docstring)
+    s_ = z3.Solver()
+    s_.set("timeout", 5000)
+    s_.add(*c.pc, *c.axioms, a != b)
+    return s_.check() == z3.unsat  # for the generic row, hence for every row (see module docstring); unknown counts as "not the same rows"
 
 
 def check_same_rows(t1, t2):
@@ -582,9 +618,13 @@ def _coerce_value(v, like_shape):
 
 
 def g_setitem(g, k, v):
-    if g.base is not None and not (isinstance(v, G) and v is g):
-        raise Unsupported("write through a view")
     record_write(g, f"[{_kdesc(k)}] =")
+    if g.base is not None and not (isinstance(v, G) and v is g):
+        # write through a view (x, y, z = np.copy(obs).T ; x[mask] = ...): this view is updated; the array it was taken from would be
+        # stale in this model, so it is poisoned — any later use of it leaves the verified subset instead of giving a wrong answer
+        root = g.base
+        root.blocks = _Poison()
+        g.base = None
     if g.bax != 0 or len(g.blocks) != 1:
         raise Unsupported("assignment into non-row-major / block array")
     if isinstance(k, tuple):
@@ -618,6 +658,19 @@ def g_setitem(g, k, v):
         g.blocks[0][rest] = res[()] if isinstance(res, np.ndarray) and res.ndim == 0 else res
     else:
         g.blocks[0] = res if isinstance(res, np.ndarray) else _obj(res)
+
+
+def g_transpose(x, order):
+    """general axis permutation of a batch array"""
+    nd = x.ndim
+    if sorted(order) != list(range(nd)):
+        raise Unsupported("transpose axes")
+    new_bax = order.index(x.bax)
+    # permutation of the trailing (non-batch) axes
+    old_trailing = [ax for ax in range(nd) if ax != x.bax]
+    new_trailing_src = [ax for ax in order if ax != x.bax]
+    perm = [old_trailing.index(ax) for ax in new_trailing_src]
+    return G([np.transpose(b, perm) if b.ndim else b for b in x.blocks], new_bax, x.tag, x.layout, base=x.base if x.base is not None else x)
 
 
 def _sameSort(new, old):
@@ -676,6 +729,7 @@ class NPG:
 
     pi = float(np.pi)
     nan = float("nan")
+    inf = float("inf")
     ndarray = G
     float64 = float
     newaxis = None
@@ -691,6 +745,105 @@ class NPG:
     abs = staticmethod(lambda x: abs(x))
     fabs = abs
     absolute = abs
+
+    @staticmethod
+    def ones(shape, dtype=float):
+        shape = shape if isinstance(shape, tuple) else (shape,)
+        if isinstance(shape[0], SymInt):
+            return G([_obj(np.ones(shape[1:]))], 0, rows_tag(shape[0]))
+        return np.ones(shape, dtype=dtype)
+
+    _uninit = [0]
+
+    @staticmethod
+    def empty(shape, dtype=float):
+        """uninitialised memory: every element an arbitrary (fresh, unconstrained) real"""
+        shape = shape if isinstance(shape, tuple) else (shape,)
+        if isinstance(shape[0], SymInt):
+            NPG._uninit[0] += 1
+            a = np.empty(shape[1:], dtype=object)
+            for idx in (np.ndindex(*shape[1:]) if shape[1:] else [()]):
+                a[idx] = z3.Real(f"uninit{NPG._uninit[0]}" + "".join("_%d" % i for i in idx))
+            return G([a], 0, rows_tag(shape[0]))
+        return np.empty(shape, dtype=dtype)
+
+    @staticmethod
+    def nan_to_num(x, copy=True, nan=0.0, posinf=None, neginf=None):
+        return x  # over the reals there is nothing to replace (non-finite values are the definedness calculus' business)
+
+    @staticmethod
+    def expand_dims(x, axis):
+        if not isinstance(x, G):
+            return np.expand_dims(x, axis)
+        nd = x.ndim + 1
+        ax = axis + nd if axis < 0 else axis
+        if ax <= x.bax:
+            return G([np.expand_dims(b, ax) for b in x.blocks], x.bax + 1, x.tag, x.layout)
+        return G([np.expand_dims(b, ax - 1) for b in x.blocks], x.bax, x.tag, x.layout)
+
+    @staticmethod
+    def swapaxes(x, a, b):
+        if not isinstance(x, G):
+            return np.swapaxes(x, a, b)
+        nd = x.ndim
+        a, b = a % nd, b % nd
+        order = list(range(nd))
+        order[a], order[b] = order[b], order[a]
+        return g_transpose(x, order)
+
+    @staticmethod
+    def transpose(x, axes=None):
+        if not isinstance(x, G):
+            return np.transpose(x, axes)
+        return g_transpose(x, list(axes) if axes is not None else list(range(x.ndim))[::-1])
+
+    @staticmethod
+    def vstack(parts):
+        return NPG.stack0(list(parts)) if all(isinstance(p, G) and p.tshape == () for p in parts) else NPG.concatenate(parts, axis=0)
+
+    @staticmethod
+    def einsum(spec, *ops):
+        """general einsum over batch arrays that share the batch letter (explicit index loops on the generic row)"""
+        import itertools as _it
+
+        spec = spec.replace(" ", "")
+        ins, out = spec.split("->")
+        ins = ins.split(",")
+        if len(ins) != len(ops) or not all(isinstance(o, G) and len(o.blocks) == 1 for o in ops):
+            raise Unsupported(f"einsum {spec}")
+        bl = {sub[o.bax] for sub, o in zip(ins, ops)}
+        if len(bl) != 1:
+            raise Unsupported(f"einsum {spec}: operands disagree on the batch letter")
+        bl = bl.pop()
+        if bl not in out:
+            raise Unsupported(f"einsum {spec}: reduction over the batch axis")
+        tag = ops[0].tag
+        for o in ops[1:]:
+            check_same_rows(tag, o.tag)
+        size = {}
+        for sub, o in zip(ins, ops):
+            tr = [c for c in sub if c != bl]
+            if len(sub) != o.ndim:
+                raise Unsupported(f"einsum {spec}: rank")
+            for c, n_ in zip(tr, o.tshape):
+                if size.setdefault(c, n_) != n_:
+                    raise Unsupported(f"einsum {spec}: size mismatch")
+        out_tr = [c for c in out if c != bl]
+        sum_l = [c for c in size if c not in out_tr]
+        res = np.empty(tuple(size[c] for c in out_tr), dtype=object)
+        for oi in (_it.product(*[range(size[c]) for c in out_tr]) if out_tr else [()]):
+            env = dict(zip(out_tr, oi))
+            acc = None
+            for si in (_it.product(*[range(size[c]) for c in sum_l]) if sum_l else [()]):
+                env.update(zip(sum_l, si))
+                term = None
+                for sub, o in zip(ins, ops):
+                    idx = tuple(env[c] for c in sub if c != bl)
+                    v = asreal(o.blocks[0][idx])
+                    term = v if term is None else term * v
+                acc = term if acc is None else acc + term
+            res[oi] = acc
+        return G([res], out.index(bl), tag)
 
     @staticmethod
     def hypot(a, b):
@@ -789,9 +942,7 @@ class NPG:
     def zeros(shape, dtype=float):
         shape = shape if isinstance(shape, tuple) else (shape,)
         if isinstance(shape[0], SymInt):
-            if not z3.is_true(z3.simplify(shape[0].t == NROWS)):
-                raise Unsupported("zeros with a row count other than the batch length")
-            return G([_obj(np.zeros(shape[1:]))], 0, None)
+            return G([_obj(np.zeros(shape[1:]))], 0, rows_tag(shape[0]))
         return np.zeros(shape, dtype=dtype)
 
     @staticmethod
@@ -876,13 +1027,10 @@ class NPG:
 
     @staticmethod
     def where(c, a, b):
-        if not isinstance(c, G) or c.tshape != ():
+        if not isinstance(c, G):
             raise Unsupported("np.where condition")
-        ga = a if isinstance(a, G) else (c.astype(float) * 0 + a)
-        gb = b if isinstance(b, G) else (c.astype(float) * 0 + b)
-        cond = c if ga.tshape == () else c.reshape((-1,) + (1,) * len(ga.tshape))
-        x = ga._bin(gb, lambda u, v: (u, v))
-        raise Unsupported("np.where")
+        pair = c._bin(a, lambda cc, x: _Pair(asbool(cc), x))
+        return pair._bin(b, lambda pr, y: z3.If(pr.c, asreal(zlift(pr.x)), asreal(zlift(y))))
 
     class linalg:
         @staticmethod
@@ -892,9 +1040,6 @@ class NPG:
                 return NPG.sqrt(sq)
             raise Unsupported("linalg.norm")
 
-    @staticmethod
-    def einsum(*a, **k):
-        raise Unsupported("einsum")
 
 
 def _obj_terms(ts):
